@@ -180,6 +180,27 @@ def t2(F, res):
     res.floor("Node impls", n, 23)
 
 
+NONCONST_VARIANTS = ("EvalParam", "EvalBuiltIn", "EvalCompiler", "EvalCoerce", "AdHocDirective")
+
+
+def _returns_constant_ctor(F, path):
+    """a workspace function every return value of which is an `Expression::<V>(..)` aggregate of a constant constructor V
+    (the role of arg_value_into_expr, whatever it is called)"""
+    g = F.fns.get(path)
+    if g is None or not g["locals"] or g["locals"][0] != EXPR:
+        return False
+    defs = []
+    for bi, si, st in mir.stmts(g):
+        if st["lhs"]["l"] == 0 and not st["lhs"]["p"]:
+            defs.append(st["rv"])
+    for bi, t in mir.calls(g):
+        if t["dest"]["l"] == 0 and not t["dest"]["p"]:
+            return False
+    if not defs:
+        return False
+    return all(rv["k"] == "agg" and rv.get("adt") == EXPR and rv.get("variant") not in NONCONST_VARIANTS for rv in defs)
+
+
 def s_kind(F, res):
     kinds = {"apply_args": "ExpectValue", "apply_inputs": "ExpectInput", "apply_fees": "ExpectFees"}
     adt = F.adt(PARAM)
@@ -207,7 +228,6 @@ def s_kind(F, res):
             res.add([ok("S-KIND", key, w, "every Param::Set aggregate is dominated by the `%s` arm" % var)])
     # S-SETCONST: all Param::Set aggregates in the workspace wrap constants (or rebuild an existing Set)
     n = 0
-    allowed_calls = ("tx3_tir::reduce::arg_value_into_expr",)
     for f in F.fns.values():
         if is_derive(f):
             continue
@@ -222,8 +242,8 @@ def s_kind(F, res):
                 good = True
                 why = []
                 for o in origins:
-                    if o.kind == "call" and (o.callee in allowed_calls):
-                        why.append("arg_value_into_expr(..)")
+                    if o.kind == "call" and _returns_constant_ctor(F, o.callee):
+                        why.append("%s(..): every value it returns is a constant Expression constructor" % o.callee.split("::")[-1])
                     elif o.kind == "call" and o.term is not None and (o.term.get("trait") in (NODE, APPLY)):
                         why.append("rebuild of an existing Set through %s" % o.callee.split("::")[-1])
                     elif o.kind == "agg" and o.rv.get("adt") == EXPR and o.rv["variant"] in ("UtxoSet", "Assets"):
